@@ -86,6 +86,12 @@ MUTANTS = [
      "matrix.dot(B)\n",
      "    if B is not None:\n        matrix = matrix.dot(B)\n\n    if errs "
      "is not None:\n        matrix /= errs\n", "C04-R6"),
+    ("peak-flux error taken from the width", "AegeanTools/fitting.py",
+     "    err_amp = model[prefix + 'amp'].stderr",
+     "    err_amp = model[prefix + 'sx'].stderr", "C04-R8"),
+    ("minor-axis error from the major-axis stderr", "AegeanTools/fitting.py",
+     "             yo + (sy + err_sy) * np.sin(np.radians(theta + 90))])",
+     "             yo + (sy + err_sx) * np.sin(np.radians(theta + 90))])", "C04-R8"),
 ]
 TWINS = [
     ("theta factor via radians", "AegeanTools/fitting.py",
@@ -179,6 +185,7 @@ def run(ctx):
     r3(ctx, prog, fit, jac)
     r4_r5(ctx, prog, fit, wrapper)
     r6(ctx, prog, fit, wrapper, dfun_call)
+    r8_pairing(ctx, prog)
     from .. import precision
     precision.rule(
         ctx, prog, "C04-R7",
@@ -618,3 +625,58 @@ def r6(ctx, prog, fit, wrapper, dfun_call):
     ctx.check("C04-R6", res[0], "residual whitening", len(dots) == 1,
               "the residual must be right-multiplied by B exactly once when "
               "B is given", node=res[0].node)
+
+
+ERR_PAIRING = {"err_peak_flux": ({"amp"}, {"amp"}),
+               "err_a": ({"sx"}, {"sx"}), "err_b": ({"sy"}, {"sy"}),
+               "err_pa": ({"theta"}, {"theta"}),
+               "err_ra": (set(), {"xo", "yo"}),
+               "err_dec": (set(), {"xo", "yo"})}
+
+
+def r8_pairing(ctx, prog):
+    """each catalogued uncertainty is derived from the 1-sigma error of its
+    own fit parameter"""
+    from ..core import param_deps
+    ctx.rule("C04-R8", "error pairing: in fitting.errors the "
+             "value stored in source.err_peak_flux depends on the stderr of "
+             "'amp' only, err_a on 'sx', err_b on 'sy', err_pa on 'theta', "
+             "err_ra / err_dec on 'xo' / 'yo' (data-dependency analysis of "
+             "the model[prefix + <name>].stderr reads)")
+
+    def atom(x):
+        if isinstance(x, ast.Attribute) and x.attr == "stderr" and \
+                isinstance(x.value, ast.Subscript):
+            key = x.value.slice
+            lits = [c.value for c in ast.walk(key)
+                    if isinstance(c, ast.Constant) and
+                    isinstance(c.value, str) and c.value]
+            if lits:
+                return {lits[-1]}
+            return {"?"}
+        return None
+    n = 0
+    # (fitting.new_errors is dead code: nothing in the package calls it)
+    for short in ("fitting.errors",):
+        if not prog.has_func(short):
+            continue
+        fi = prog.func(short)
+        envs = []
+        param_deps(fi.node, atom=atom, control=False, envs=envs)
+        if not envs:
+            raise AnalysisError("C04-R8: no return in %s" % short)
+        # the last return is the normal (fitted) path
+        ret, env = sorted(envs, key=lambda t: t[0].lineno)[-1]
+        obj = fi.params[0]
+        for fld, (must, may) in sorted(ERR_PAIRING.items()):
+            d = {x for x in env.get("%s.%s" % (obj, fld), set())
+                 if x in ("amp", "xo", "yo", "sx", "sy", "theta", "?")}
+            n += 1
+            ctx.check("C04-R8", fi, "%s <- stderr of %s" % (fld, sorted(d)),
+                      must <= d <= may and bool(d),
+                      "%s.%s is derived from the 1-sigma error of %s; it "
+                      "must come from %s: the component would be given "
+                      "another parameter's uncertainty" %
+                      (obj, fld, sorted(d) or "no fit parameter",
+                       sorted(may)), node=ret)
+    ctx.floor("C04-R8", n, 6, "uncertainty fields paired with parameters")
